@@ -152,6 +152,17 @@ pub mod std {
             Ok(())
         }
 
+        /// realpath: a failure here (ENAMETOOLONG, EIO, a vanished entry) must not make a file
+        /// disappear from the run
+        pub fn canonicalize<P: AsRef<Path>>(p: P) -> ::std::io::Result<::std::path::PathBuf> {
+            let np = crate::rt::norm_path(p.as_ref());
+            if let Some((kind, _)) = crate::fault("fs.canonicalize", &np) {
+                crate::note(&format!("fs.canonicalize {np} -> injected {kind}"));
+                return Err(crate::io_err(&kind));
+            }
+            ::std::fs::canonicalize(p)
+        }
+
         macro_rules! passthrough1 {
             ($name:ident, $ret:ty) => {
                 pub fn $name<P: AsRef<Path>>(p: P) -> ::std::io::Result<$ret> {
